@@ -33,6 +33,7 @@ type Case struct {
 	MaxEvents    int    `json:"maxev,omitempty"`
 	NoTrace      bool   `json:"notrace,omitempty"` // do not ship the event list back (only its hash/len)
 	Init         int    `json:"init,omitempty"`    // >0: InitState("n", Init), InitState("box", &Box{Init}), InitState("k<Init%3>", "init")
+	TableOpts    int    `json:"tableopts,omitempty"` // >0: Parse(file, in, table[:TableOpts]...) with a package-level option table (spare capacity behind the prefix); nothing per-call is installed, no trace
 	SharedOpts   bool   `json:"sharedopts,omitempty"` // the call also passes a package-level []Option (neutral values) that all calls share
 	DebugQuiet   bool   `json:"debugquiet,omitempty"` // Debug(true) without capturing the trace (concurrent mode: stdout is the null device)
 	StatsPre     uint64 `json:"statspre,omitempty"` // with Stats: the caller's Stats struct already holds this ExprCnt (it was used for an earlier parse)
@@ -141,7 +142,7 @@ func CanonPanic(e any) string {
 	case string:
 		return "string:" + x
 	case PanicVal:
-		return "val:" + x.String()
+		return "val:" + fmt.Sprint(x)
 	default:
 		return fmt.Sprintf("other:%T:%v", e, e)
 	}
